@@ -168,3 +168,42 @@ def try_compile(module, march, opt='speed'):
     except Exception as ex:   # noqa: BLE001
         return (type(ex).__name__, str(ex)[:200])
     return None
+
+
+def pressure_module(n, nargs=0, with_call=True):
+    """n volatile loads that stay live across a call and are summed in reverse order (register pressure)"""
+    from ppci import ir
+    ty = ir.i32
+    m = ir.Module('press')
+    g = ir.Variable('g', ir.Binding.GLOBAL, 4 * n + 64, 4)
+    m.add_variable(g)
+    f = ir.Function('f', ir.Binding.GLOBAL, ty)
+    m.add_function(f)
+    vals = []
+    for i in range(nargs):
+        p = ir.Parameter('a%d' % i, ty)
+        f.add_parameter(p)
+        vals.append(p)
+    b = ir.Block('entry')
+    f.add_block(b)
+    f.entry = b
+    for i in range(n):
+        o = ir.Const(4 * i, 'o%d' % i, ir.i32)
+        oc = ir.Cast(o, 'oc%d' % i, ir.ptr)
+        a = ir.Binop(g, '+', oc, 'p%d' % i, ir.ptr)
+        ld = ir.Load(a, 'l%d' % i, ty, True)
+        for ins in (o, oc, a, ld):
+            b.add_instruction(ins)
+        vals.append(ld)
+    if with_call:
+        e = ir.ExternalFunction('ext', [ty] * 4, ty)
+        m.add_external(e)
+        c = ir.FunctionCall(e, vals[:4], 'r', ty)
+        b.add_instruction(c)
+        vals.append(c)
+    acc = vals[-1]
+    for i, v in enumerate(reversed(vals[:-1])):
+        acc = ir.Binop(acc, '+', v, 's%d' % i, ty)
+        b.add_instruction(acc)
+    b.add_instruction(ir.Return(acc))
+    return m
